@@ -1173,8 +1173,12 @@ run_task(_task_t t)
 		return -1;
 	}
 
-	if (!(t->nsim < (unsigned int)t->t->max_simul)) {
+	/* max_simul of 077 means no limit */
+	if (t->t->max_simul < 077U &&
+	    !(t->nsim < (unsigned int)t->t->max_simul)) {
 		args[2U] = "-nd";
+	} else {
+		args[2U] = NULL;
 	}
 
 	/* prep the IPC with echsx */
